@@ -1,0 +1,431 @@
+//go:build verif
+
+package vm
+
+// Contracts for the verif build tag (comment-only; see /verif/DESIGN.md).
+// C13: instruction arms of execute against specification functions written over unbounded
+// integers with the explicit 256-bit range check in256. For each arm:
+//   panics-if   the only conditions under which the arm may panic (= the VM FAULTs);
+//   [nofault]   a normal return implies that the specification does not fault on these operands;
+//   [value]     the item pushed and the new depth;  [rest] everything below is untouched;
+//   [err]       no error other than the stack-size one is returned without a panic.
+// Together: FAULT exactly where the specification faults, otherwise exactly its result.
+
+//@ prop C13
+//@ import stackitem github.com/nspcc-dev/neo-go/pkg/vm/stackitem
+//@ import opcode github.com/nspcc-dev/neo-go/pkg/vm/opcode
+//@ import big math/big
+//@ pkg-invariant bigOne != nil && bigOne.v == 1 && bigZero != nil && bigZero.v == 0 && bigTwo != nil && bigTwo.v == 2 && bigMinusOne != nil && bigMinusOne.v == -1
+
+// The reference counter walks compound items; its effect on the items themselves is limited
+// to their counters (assumed: the recursion over item graphs is outside the contracts).
+//@ func (*refCounter).Add
+//@ assumed
+//@ modifies *r, fields(stackitem.Array, rc), fields(stackitem.Struct, rc), fields(stackitem.Map, rc)
+//@ func (*refCounter).Remove
+//@ assumed
+//@ modifies *r, fields(stackitem.Array, rc), fields(stackitem.Struct, rc), fields(stackitem.Map, rc)
+
+// Error construction (formats a message; no effect on VM memory).
+//@ func newError
+//@ assumed
+//@ pure
+//@ ensures result != nil
+
+// The evaluation stack always exists: set by the constructor, replaced only by other stacks
+// (VM invariant, assumed).
+//@ func (*VM).Estack
+//@ assumed
+//@ pure
+//@ ensures result == v.estack && result != nil
+
+// ---- stack primitives
+//@ func (*Stack).popNoRef
+//@ inline
+//@ func (*Stack).pushNoRef
+//@ inline
+//@ func (*Stack).Push
+//@ inline
+
+//@ func (*Stack).Pop
+//@ requires s != nil
+//@ requires[nopanic] len(s.elems) >= 1
+//@ opt frame off
+//@ modifies s.elems, *s.refs, fields(stackitem.Array, rc), fields(stackitem.Struct, rc), fields(stackitem.Map, rc)
+//@ ensures[top] result == old(s.elems[len(s.elems)-1]) && same(s.elems, old(s.elems[0:len(s.elems)-1]))
+
+//@ func (*Stack).PushItem
+//@ requires s != nil
+//@ opt frame off
+//@ modifies s.elems, *s.refs, fields(stackitem.Array, rc), fields(stackitem.Struct, rc), fields(stackitem.Map, rc), elems(Element)
+//@ ensures[pushed] len(s.elems) == old(len(s.elems)) + 1 && s.elems[len(s.elems)-1].value == i
+//@ ensures[below] forall(j, 0, old(len(s.elems)), s.elems[j] == old(s.elems[j]))
+
+// ---- views of an element (each panics, i.e. FAULTs, when the item has no such view)
+//@ func (Element).BigInt
+//@ opt uncovered 1
+//@ requires stackitem.wfItem(e.value)
+//@ requires[nopanic] stackitem.isInt(e.value)
+//@ ensures result != nil && result.v == stackitem.intOf(e.value) && stackitem.in256(result.v)
+
+//@ func (Element).Bool
+//@ opt uncovered 1
+//@ requires stackitem.wfItem(e.value)
+//@ requires[nopanic] stackitem.isBool(e.value)
+//@ ensures result == stackitem.boolOf(e.value)
+
+//@ func (Element).Item
+//@ inline
+
+//@ func toInt
+//@ opt uncovered 2
+//@ requires i != nil
+//@ requires[nopanic] -2147483648 <= i.v && i.v <= 2147483647
+//@ ensures result == i.v
+
+// ---- vocabulary of the per-instruction contracts
+//@ spec wfStack(s *Stack) bool = s != nil && forall(j, 0, len(s.elems), stackitem.wfItem(s.elems[j].value))
+//@ spec item(v *VM, k int) stackitem.Item = v.estack.elems[len(v.estack.elems)-1-k].value
+//@ spec depth(v *VM) int = len(v.estack.elems)
+//@ spec x0(v *VM) int = stackitem.intOf(item(v, 0))
+//@ spec x1(v *VM) int = stackitem.intOf(item(v, 1))
+//@ spec x2(v *VM) int = stackitem.intOf(item(v, 2))
+//@ spec ints1(v *VM) bool = depth(v) >= 1 && stackitem.isInt(item(v, 0))
+//@ spec ints2(v *VM) bool = depth(v) >= 2 && stackitem.isInt(item(v, 0)) && stackitem.isInt(item(v, 1))
+//@ spec ints3(v *VM) bool = depth(v) >= 3 && stackitem.isInt(item(v, 0)) && stackitem.isInt(item(v, 1)) && stackitem.isInt(item(v, 2))
+//@ spec b0(v *VM) bool = stackitem.boolOf(item(v, 0))
+//@ spec b1(v *VM) bool = stackitem.boolOf(item(v, 1))
+//@ spec bools1(v *VM) bool = depth(v) >= 1 && stackitem.isBool(item(v, 0))
+//@ spec bools2(v *VM) bool = depth(v) >= 2 && stackitem.isBool(item(v, 0)) && stackitem.isBool(item(v, 1))
+//@ spec topInt(v *VM, x int) bool = is(item(v, 0), *stackitem.BigInteger) && stackitem.wfItem(item(v, 0)) && stackitem.intOf(item(v, 0)) == x
+//@ spec topBool(v *VM, b bool) bool = is(item(v, 0), stackitem.Bool) && bool(item(v, 0).(stackitem.Bool)) == b
+//@ spec in256(x int) bool = stackitem.in256(x)
+//@ spec i32(x int) bool = -2147483648 <= x && x <= 2147483647
+
+//@ cases (*VM).execute
+
+// ================= unary numeric
+//@ case INVERT
+//@ opt inline-defers yes
+//@ requires op == opcode.INVERT && v.getPrice == nil && wfStack(v.estack)
+//@ panics-if !ints1(v) || !in256(-x0(v) - 1)
+//@ ensures[nofault] old(ints1(v) && in256(-x0(v) - 1))
+//@ ensures[value] depth(v) == old(depth(v)) && topInt(v, old(-x0(v) - 1))
+//@ ensures[rest] forall(j, 0, depth(v) - 1, v.estack.elems[j] == old(v.estack.elems[j]))
+//@ ensures[err] v.refs <= MaxStackSize ==> err == nil
+
+//@ case SIGN
+//@ opt inline-defers yes
+//@ requires op == opcode.SIGN && v.getPrice == nil && wfStack(v.estack)
+//@ panics-if !ints1(v)
+//@ ensures[nofault] old(ints1(v))
+//@ ensures[value] depth(v) == old(depth(v)) && topInt(v, old(ite(x0(v) > 0, 1, ite(x0(v) < 0, -1, 0))))
+//@ ensures[rest] forall(j, 0, depth(v) - 1, v.estack.elems[j] == old(v.estack.elems[j]))
+//@ ensures[err] v.refs <= MaxStackSize ==> err == nil
+
+//@ case ABS
+//@ opt inline-defers yes
+//@ requires op == opcode.ABS && v.getPrice == nil && wfStack(v.estack)
+//@ panics-if !ints1(v) || !in256(abs(x0(v)))
+//@ ensures[nofault] old(ints1(v) && in256(abs(x0(v))))
+//@ ensures[value] depth(v) == old(depth(v)) && topInt(v, old(abs(x0(v))))
+//@ ensures[rest] forall(j, 0, depth(v) - 1, v.estack.elems[j] == old(v.estack.elems[j]))
+//@ ensures[err] v.refs <= MaxStackSize ==> err == nil
+
+//@ case NEGATE
+//@ opt inline-defers yes
+//@ requires op == opcode.NEGATE && v.getPrice == nil && wfStack(v.estack)
+//@ panics-if !ints1(v) || !in256(-x0(v))
+//@ ensures[nofault] old(ints1(v) && in256(-x0(v)))
+//@ ensures[value] depth(v) == old(depth(v)) && topInt(v, old(-x0(v)))
+//@ ensures[rest] forall(j, 0, depth(v) - 1, v.estack.elems[j] == old(v.estack.elems[j]))
+//@ ensures[err] v.refs <= MaxStackSize ==> err == nil
+
+//@ case INC
+//@ opt inline-defers yes
+//@ requires op == opcode.INC && v.getPrice == nil && wfStack(v.estack)
+//@ panics-if !ints1(v) || !in256(x0(v) + 1)
+//@ ensures[nofault] old(ints1(v) && in256(x0(v) + 1))
+//@ ensures[value] depth(v) == old(depth(v)) && topInt(v, old(x0(v) + 1))
+//@ ensures[rest] forall(j, 0, depth(v) - 1, v.estack.elems[j] == old(v.estack.elems[j]))
+//@ ensures[err] v.refs <= MaxStackSize ==> err == nil
+
+//@ case DEC
+//@ opt inline-defers yes
+//@ requires op == opcode.DEC && v.getPrice == nil && wfStack(v.estack)
+//@ panics-if !ints1(v) || !in256(x0(v) - 1)
+//@ ensures[nofault] old(ints1(v) && in256(x0(v) - 1))
+//@ ensures[value] depth(v) == old(depth(v)) && topInt(v, old(x0(v) - 1))
+//@ ensures[rest] forall(j, 0, depth(v) - 1, v.estack.elems[j] == old(v.estack.elems[j]))
+//@ ensures[err] v.refs <= MaxStackSize ==> err == nil
+
+// SQRT: the floor of the square root; negative operand faults
+//@ case SQRT
+//@ opt inline-defers yes
+//@ requires op == opcode.SQRT && v.getPrice == nil && wfStack(v.estack)
+//@ panics-if !ints1(v) || x0(v) < 0
+//@ ensures[nofault] old(ints1(v) && x0(v) >= 0)
+//@ ensures[value] depth(v) == old(depth(v)) && is(item(v, 0), *stackitem.BigInteger) && stackitem.wfItem(item(v, 0)) && x0(v) >= 0 && x0(v) * x0(v) <= old(x0(v)) && old(x0(v)) < (x0(v) + 1) * (x0(v) + 1)
+//@ ensures[rest] forall(j, 0, depth(v) - 1, v.estack.elems[j] == old(v.estack.elems[j]))
+//@ ensures[err] v.refs <= MaxStackSize ==> err == nil
+
+//@ case NZ
+//@ opt inline-defers yes
+//@ requires op == opcode.NZ && v.getPrice == nil && wfStack(v.estack)
+//@ panics-if !ints1(v)
+//@ ensures[nofault] old(ints1(v))
+//@ ensures[value] depth(v) == old(depth(v)) && topBool(v, old(x0(v) != 0))
+//@ ensures[rest] forall(j, 0, depth(v) - 1, v.estack.elems[j] == old(v.estack.elems[j]))
+//@ ensures[err] v.refs <= MaxStackSize ==> err == nil
+
+//@ case NOT
+//@ opt inline-defers yes
+//@ requires op == opcode.NOT && v.getPrice == nil && wfStack(v.estack)
+//@ panics-if !bools1(v)
+//@ ensures[nofault] old(bools1(v))
+//@ ensures[value] depth(v) == old(depth(v)) && topBool(v, old(!b0(v)))
+//@ ensures[rest] forall(j, 0, depth(v) - 1, v.estack.elems[j] == old(v.estack.elems[j]))
+//@ ensures[err] v.refs <= MaxStackSize ==> err == nil
+
+// ================= binary numeric (x1 is the operand pushed first, x0 the top)
+//@ case ADD
+//@ opt inline-defers yes
+//@ requires op == opcode.ADD && v.getPrice == nil && wfStack(v.estack)
+//@ panics-if !ints2(v) || !in256(x1(v) + x0(v))
+//@ ensures[nofault] old(ints2(v) && in256(x1(v) + x0(v)))
+//@ ensures[value] depth(v) == old(depth(v)) - 1 && topInt(v, old(x1(v) + x0(v)))
+//@ ensures[rest] forall(j, 0, depth(v) - 1, v.estack.elems[j] == old(v.estack.elems[j]))
+//@ ensures[err] v.refs <= MaxStackSize ==> err == nil
+
+//@ case SUB
+//@ opt inline-defers yes
+//@ requires op == opcode.SUB && v.getPrice == nil && wfStack(v.estack)
+//@ panics-if !ints2(v) || !in256(x1(v) - x0(v))
+//@ ensures[nofault] old(ints2(v) && in256(x1(v) - x0(v)))
+//@ ensures[value] depth(v) == old(depth(v)) - 1 && topInt(v, old(x1(v) - x0(v)))
+//@ ensures[rest] forall(j, 0, depth(v) - 1, v.estack.elems[j] == old(v.estack.elems[j]))
+//@ ensures[err] v.refs <= MaxStackSize ==> err == nil
+
+//@ case MUL
+//@ opt inline-defers yes
+//@ requires op == opcode.MUL && v.getPrice == nil && wfStack(v.estack)
+//@ panics-if !ints2(v) || !in256(x1(v) * x0(v))
+//@ ensures[nofault] old(ints2(v) && in256(x1(v) * x0(v)))
+//@ ensures[value] depth(v) == old(depth(v)) - 1 && topInt(v, old(x1(v) * x0(v)))
+//@ ensures[rest] forall(j, 0, depth(v) - 1, v.estack.elems[j] == old(v.estack.elems[j]))
+//@ ensures[err] v.refs <= MaxStackSize ==> err == nil
+
+// DIV, MOD: truncated division, the remainder takes the sign of the dividend; zero divisor faults
+//@ case DIV
+//@ opt inline-defers yes
+//@ requires op == opcode.DIV && v.getPrice == nil && wfStack(v.estack)
+//@ panics-if !ints2(v) || x0(v) == 0 || !in256(big.tquo(x1(v), x0(v)))
+//@ ensures[nofault] old(ints2(v) && x0(v) != 0 && in256(big.tquo(x1(v), x0(v))))
+//@ ensures[value] depth(v) == old(depth(v)) - 1 && topInt(v, old(big.tquo(x1(v), x0(v))))
+//@ ensures[rest] forall(j, 0, depth(v) - 1, v.estack.elems[j] == old(v.estack.elems[j]))
+//@ ensures[err] v.refs <= MaxStackSize ==> err == nil
+
+//@ case MOD
+//@ opt inline-defers yes
+//@ requires op == opcode.MOD && v.getPrice == nil && wfStack(v.estack)
+//@ panics-if !ints2(v) || x0(v) == 0
+//@ ensures[nofault] old(ints2(v) && x0(v) != 0)
+//@ ensures[value] depth(v) == old(depth(v)) - 1 && topInt(v, old(big.trem(x1(v), x0(v))))
+//@ ensures[rest] forall(j, 0, depth(v) - 1, v.estack.elems[j] == old(v.estack.elems[j]))
+//@ ensures[err] v.refs <= MaxStackSize ==> err == nil
+
+// POW: exponent in 0..256, x**0 = 1
+//@ case POW
+//@ opt inline-defers yes
+//@ requires op == opcode.POW && v.getPrice == nil && wfStack(v.estack)
+//@ panics-if !ints2(v) || x0(v) < 0 || x0(v) > 256 || !in256(ite(x0(v) == 0, 1, big.ipow(x1(v), x0(v))))
+//@ ensures[nofault] old(ints2(v) && 0 <= x0(v) && x0(v) <= 256 && in256(ite(x0(v) == 0, 1, big.ipow(x1(v), x0(v)))))
+//@ ensures[value] depth(v) == old(depth(v)) - 1 && topInt(v, old(ite(x0(v) == 0, 1, big.ipow(x1(v), x0(v)))))
+//@ ensures[rest] forall(j, 0, depth(v) - 1, v.estack.elems[j] == old(v.estack.elems[j]))
+//@ ensures[err] v.refs <= MaxStackSize ==> err == nil
+
+//@ case AND
+//@ opt inline-defers yes
+//@ requires op == opcode.AND && v.getPrice == nil && wfStack(v.estack)
+//@ panics-if !ints2(v)
+//@ ensures[nofault] old(ints2(v))
+//@ ensures[value] depth(v) == old(depth(v)) - 1 && topInt(v, old(big.bitand(x0(v), x1(v))))
+//@ ensures[rest] forall(j, 0, depth(v) - 1, v.estack.elems[j] == old(v.estack.elems[j]))
+//@ ensures[err] v.refs <= MaxStackSize ==> err == nil
+
+//@ case OR
+//@ opt inline-defers yes
+//@ requires op == opcode.OR && v.getPrice == nil && wfStack(v.estack)
+//@ panics-if !ints2(v)
+//@ ensures[nofault] old(ints2(v))
+//@ ensures[value] depth(v) == old(depth(v)) - 1 && topInt(v, old(big.bitor(x0(v), x1(v))))
+//@ ensures[rest] forall(j, 0, depth(v) - 1, v.estack.elems[j] == old(v.estack.elems[j]))
+//@ ensures[err] v.refs <= MaxStackSize ==> err == nil
+
+//@ case XOR
+//@ opt inline-defers yes
+//@ requires op == opcode.XOR && v.getPrice == nil && wfStack(v.estack)
+//@ panics-if !ints2(v)
+//@ ensures[nofault] old(ints2(v))
+//@ ensures[value] depth(v) == old(depth(v)) - 1 && topInt(v, old(big.bitxor(x0(v), x1(v))))
+//@ ensures[rest] forall(j, 0, depth(v) - 1, v.estack.elems[j] == old(v.estack.elems[j]))
+//@ ensures[err] v.refs <= MaxStackSize ==> err == nil
+
+// SHL, SHR with a non-zero shift: the shift must be in 1..256; SHL multiplies by 2^n, SHR divides
+// rounding towards minus infinity (arithmetic shift)
+//@ case SHL
+//@ opt inline-defers yes
+//@ requires op == opcode.SHL && v.getPrice == nil && v.isHardforkEnabled != nil && wfStack(v.estack) && !(ints1(v) && x0(v) == 0)
+//@ panics-if !ints2(v) || x0(v) < 0 || x0(v) > 256 || !in256(x1(v) * big.pow2(x0(v)))
+//@ ensures[nofault] old(ints2(v) && 0 < x0(v) && x0(v) <= 256 && in256(x1(v) * big.pow2(x0(v))))
+//@ ensures[value] depth(v) == old(depth(v)) - 1 && topInt(v, old(x1(v) * big.pow2(x0(v))))
+//@ ensures[rest] forall(j, 0, depth(v) - 1, v.estack.elems[j] == old(v.estack.elems[j]))
+//@ ensures[err] v.refs <= MaxStackSize ==> err == nil
+
+//@ case SHR
+//@ opt inline-defers yes
+//@ requires op == opcode.SHR && v.getPrice == nil && v.isHardforkEnabled != nil && wfStack(v.estack) && !(ints1(v) && x0(v) == 0)
+//@ panics-if !ints2(v) || x0(v) < 0 || x0(v) > 256 || !in256(div(x1(v), big.pow2(x0(v))))
+//@ ensures[nofault] old(ints2(v) && 0 < x0(v) && x0(v) <= 256)
+//@ ensures[value] depth(v) == old(depth(v)) - 1 && topInt(v, old(div(x1(v), big.pow2(x0(v)))))
+//@ ensures[rest] forall(j, 0, depth(v) - 1, v.estack.elems[j] == old(v.estack.elems[j]))
+//@ ensures[err] v.refs <= MaxStackSize ==> err == nil
+
+// a zero shift: the value is unchanged (before the Gorgon hardfork the operand is left as it is,
+// afterwards it is converted to an Integer; both are the specification's behaviour for their era)
+//@ case SHL0
+//@ opt inline-defers yes
+//@ requires (op == opcode.SHL || op == opcode.SHR) && v.getPrice == nil && v.isHardforkEnabled != nil && wfStack(v.estack) && ints1(v) && x0(v) == 0
+//@ panics-if depth(v) < 2 || !stackitem.isInt(item(v, 1))
+//@ ensures[value] depth(v) == old(depth(v)) - 1 && (item(v, 0) == old(item(v, 1)) || (old(stackitem.isInt(item(v, 1))) && topInt(v, old(x1(v)))))
+//@ ensures[rest] forall(j, 0, depth(v) - 1, v.estack.elems[j] == old(v.estack.elems[j]))
+//@ ensures[err] v.refs <= MaxStackSize ==> err == nil
+
+//@ case MIN
+//@ opt inline-defers yes
+//@ requires op == opcode.MIN && v.getPrice == nil && wfStack(v.estack)
+//@ panics-if !ints2(v)
+//@ ensures[nofault] old(ints2(v))
+//@ ensures[value] depth(v) == old(depth(v)) - 1 && topInt(v, old(min(x1(v), x0(v))))
+//@ ensures[rest] forall(j, 0, depth(v) - 1, v.estack.elems[j] == old(v.estack.elems[j]))
+//@ ensures[err] v.refs <= MaxStackSize ==> err == nil
+
+//@ case MAX
+//@ opt inline-defers yes
+//@ requires op == opcode.MAX && v.getPrice == nil && wfStack(v.estack)
+//@ panics-if !ints2(v)
+//@ ensures[nofault] old(ints2(v))
+//@ ensures[value] depth(v) == old(depth(v)) - 1 && topInt(v, old(max(x1(v), x0(v))))
+//@ ensures[rest] forall(j, 0, depth(v) - 1, v.estack.elems[j] == old(v.estack.elems[j]))
+//@ ensures[err] v.refs <= MaxStackSize ==> err == nil
+
+// ================= comparisons and boolean operators
+//@ case NUMEQUAL
+//@ opt inline-defers yes
+//@ requires op == opcode.NUMEQUAL && v.getPrice == nil && wfStack(v.estack)
+//@ panics-if !ints2(v)
+//@ ensures[nofault] old(ints2(v))
+//@ ensures[value] depth(v) == old(depth(v)) - 1 && topBool(v, old(x1(v) == x0(v)))
+//@ ensures[rest] forall(j, 0, depth(v) - 1, v.estack.elems[j] == old(v.estack.elems[j]))
+//@ ensures[err] v.refs <= MaxStackSize ==> err == nil
+
+//@ case NUMNOTEQUAL
+//@ opt inline-defers yes
+//@ requires op == opcode.NUMNOTEQUAL && v.getPrice == nil && wfStack(v.estack)
+//@ panics-if !ints2(v)
+//@ ensures[nofault] old(ints2(v))
+//@ ensures[value] depth(v) == old(depth(v)) - 1 && topBool(v, old(x1(v) != x0(v)))
+//@ ensures[rest] forall(j, 0, depth(v) - 1, v.estack.elems[j] == old(v.estack.elems[j]))
+//@ ensures[err] v.refs <= MaxStackSize ==> err == nil
+
+// ordering: a Null operand gives false without looking at the other one
+//@ spec nulls2(v *VM) bool = is(item(v, 0), stackitem.Null) || is(item(v, 1), stackitem.Null)
+//@ case LT
+//@ opt inline-defers yes
+//@ requires op == opcode.LT && v.getPrice == nil && wfStack(v.estack)
+//@ panics-if depth(v) < 2 || (!nulls2(v) && !ints2(v))
+//@ ensures[nofault] old(depth(v) >= 2 && (nulls2(v) || ints2(v)))
+//@ ensures[value] depth(v) == old(depth(v)) - 1 && topBool(v, old(!nulls2(v) && x1(v) < x0(v)))
+//@ ensures[rest] forall(j, 0, depth(v) - 1, v.estack.elems[j] == old(v.estack.elems[j]))
+//@ ensures[err] v.refs <= MaxStackSize ==> err == nil
+
+//@ case LE
+//@ opt inline-defers yes
+//@ requires op == opcode.LE && v.getPrice == nil && wfStack(v.estack)
+//@ panics-if depth(v) < 2 || (!nulls2(v) && !ints2(v))
+//@ ensures[nofault] old(depth(v) >= 2 && (nulls2(v) || ints2(v)))
+//@ ensures[value] depth(v) == old(depth(v)) - 1 && topBool(v, old(!nulls2(v) && x1(v) <= x0(v)))
+//@ ensures[rest] forall(j, 0, depth(v) - 1, v.estack.elems[j] == old(v.estack.elems[j]))
+//@ ensures[err] v.refs <= MaxStackSize ==> err == nil
+
+//@ case GT
+//@ opt inline-defers yes
+//@ requires op == opcode.GT && v.getPrice == nil && wfStack(v.estack)
+//@ panics-if depth(v) < 2 || (!nulls2(v) && !ints2(v))
+//@ ensures[nofault] old(depth(v) >= 2 && (nulls2(v) || ints2(v)))
+//@ ensures[value] depth(v) == old(depth(v)) - 1 && topBool(v, old(!nulls2(v) && x1(v) > x0(v)))
+//@ ensures[rest] forall(j, 0, depth(v) - 1, v.estack.elems[j] == old(v.estack.elems[j]))
+//@ ensures[err] v.refs <= MaxStackSize ==> err == nil
+
+//@ case GE
+//@ opt inline-defers yes
+//@ requires op == opcode.GE && v.getPrice == nil && wfStack(v.estack)
+//@ panics-if depth(v) < 2 || (!nulls2(v) && !ints2(v))
+//@ ensures[nofault] old(depth(v) >= 2 && (nulls2(v) || ints2(v)))
+//@ ensures[value] depth(v) == old(depth(v)) - 1 && topBool(v, old(!nulls2(v) && x1(v) >= x0(v)))
+//@ ensures[rest] forall(j, 0, depth(v) - 1, v.estack.elems[j] == old(v.estack.elems[j]))
+//@ ensures[err] v.refs <= MaxStackSize ==> err == nil
+
+//@ case BOOLAND
+//@ opt inline-defers yes
+//@ requires op == opcode.BOOLAND && v.getPrice == nil && wfStack(v.estack)
+//@ panics-if !bools2(v)
+//@ ensures[nofault] old(bools2(v))
+//@ ensures[value] depth(v) == old(depth(v)) - 1 && topBool(v, old(b1(v) && b0(v)))
+//@ ensures[rest] forall(j, 0, depth(v) - 1, v.estack.elems[j] == old(v.estack.elems[j]))
+//@ ensures[err] v.refs <= MaxStackSize ==> err == nil
+
+//@ case BOOLOR
+//@ opt inline-defers yes
+//@ requires op == opcode.BOOLOR && v.getPrice == nil && wfStack(v.estack)
+//@ panics-if !bools2(v)
+//@ ensures[nofault] old(bools2(v))
+//@ ensures[value] depth(v) == old(depth(v)) - 1 && topBool(v, old(b1(v) || b0(v)))
+//@ ensures[rest] forall(j, 0, depth(v) - 1, v.estack.elems[j] == old(v.estack.elems[j]))
+//@ ensures[err] v.refs <= MaxStackSize ==> err == nil
+
+// ================= ternary
+// WITHIN: x2 is the value, x1 the inclusive lower and x0 the exclusive upper bound
+//@ case WITHIN
+//@ opt inline-defers yes
+//@ requires op == opcode.WITHIN && v.getPrice == nil && wfStack(v.estack)
+//@ panics-if !ints3(v)
+//@ ensures[nofault] old(ints3(v))
+//@ ensures[value] depth(v) == old(depth(v)) - 2 && topBool(v, old(x1(v) <= x2(v) && x2(v) < x0(v)))
+//@ ensures[rest] forall(j, 0, depth(v) - 1, v.estack.elems[j] == old(v.estack.elems[j]))
+//@ ensures[err] v.refs <= MaxStackSize ==> err == nil
+
+// MODMUL: (x2 * x1) rem x0 with the sign of the product (big.imul(a, b) is a*b); zero modulus faults
+//@ case MODMUL
+//@ opt inline-defers yes
+//@ requires op == opcode.MODMUL && v.getPrice == nil && wfStack(v.estack)
+//@ panics-if !ints3(v) || x0(v) == 0
+//@ ensures[nofault] old(ints3(v) && x0(v) != 0)
+//@ ensures[value] depth(v) == old(depth(v)) - 2 && topInt(v, old(big.trem(big.imul(x2(v), x1(v)), x0(v))))
+//@ ensures[rest] forall(j, 0, depth(v) - 1, v.estack.elems[j] == old(v.estack.elems[j]))
+//@ ensures[err] v.refs <= MaxStackSize ==> err == nil
+
+// MODPOW (x2 base, x1 exponent, x0 modulus): exponent -1 asks for the modular inverse (base > 0,
+// modulus >= 2, coprime), exponent >= 0 for base**exponent rem modulus with the sign of the power
+//@ spec modpowFaults(b int, e int, m int) bool = e < -1 || (e == -1 && (b <= 0 || m < 2 || !big.coprime(b, m))) || (e >= 0 && m == 0)
+//@ spec modpowPower(b int, e int) int = ite(e == 0, 1, big.ipow(b, e))
+//@ case MODPOW
+//@ opt inline-defers yes
+//@ requires op == opcode.MODPOW && v.getPrice == nil && wfStack(v.estack)
+//@ panics-if !ints3(v) || modpowFaults(x2(v), x1(v), x0(v))
+//@ ensures[nofault] old(ints3(v) && !modpowFaults(x2(v), x1(v), x0(v)))
+//@ ensures[depth] depth(v) == old(depth(v)) - 2 && is(item(v, 0), *stackitem.BigInteger) && stackitem.wfItem(item(v, 0))
+//@ ensures[power] old(x1(v)) >= 0 ==> x0(v) == old(big.trem(modpowPower(x2(v), x1(v)), x0(v)))
+//@ ensures[inverse] old(x1(v)) == -1 ==> 0 <= x0(v) && x0(v) < old(x0(v)) && mod(x0(v) * old(x2(v)), old(x0(v))) == 1
+//@ ensures[rest] forall(j, 0, depth(v) - 1, v.estack.elems[j] == old(v.estack.elems[j]))
+//@ ensures[err] v.refs <= MaxStackSize ==> err == nil
